@@ -243,17 +243,17 @@ Track == /\ TrackScan
          /\ ever' = [p \in Procs |-> IF loc'[p].pc = "idle" THEN [pres |-> FALSE, abs |-> FALSE]
                    ELSE [pres |-> ever[p].pres \/ (loc'[p].k \in Abs) \/ (loc'[p].k \in Abs'),
                          abs |-> ever[p].abs \/ (loc'[p].k \notin Abs) \/ (loc'[p].k \notin Abs')]]
-SeekFirst(p) == StartSeekFirst(p) /\ Track
-Seek(p, k) == StartSeek(p, k) /\ Track
-ItNext(p) == StartNext(p) /\ Track
+SeekFirst(p) == p \in IterProcs /\ StartSeekFirst(p) /\ Track
+Seek(p, k) == p \in IterProcs /\ StartSeek(p, k) /\ Track
+ItNext(p) == p \in IterProcs /\ StartNext(p) /\ Track
 aIT0(p) == IT0(p) /\ Track
 aIN1(p) == IN1(p) /\ Track
 aIN2(p) == IN2(p) /\ Track
 (* named wrappers (so that TLC labels every transition with the action and the process) *)
-Insert(p, k, h) == StartInsert(p, k, h) /\ Track
-Delete(p, k) == StartDelete(p, k) /\ Track
-Lookup(p, k) == StartLookup(p, k) /\ Track
-DeleteNode(p, n) == StartDeleteNode(p, n) /\ Track
+Insert(p, k, h) == p \notin IterProcs /\ StartInsert(p, k, h) /\ Track
+Delete(p, k) == p \notin IterProcs /\ StartDelete(p, k) /\ Track
+Lookup(p, k) == p \notin IterProcs /\ StartLookup(p, k) /\ Track
+DeleteNode(p, n) == p \notin IterProcs /\ StartDeleteNode(p, n) /\ Track
 aFP0(p) == FP0(p) /\ Track
 aFP1(p) == FP1(p) /\ Track
 aFP2(p) == FP2(p) /\ Track
@@ -267,12 +267,12 @@ aS1(p) == S1(p) /\ Track
 aS2(p) == S2(p) /\ Track
 aDS(p) == DS(p) /\ Track
 Next == \E p \in Procs :
-           \/ (p \notin IterProcs /\ \E k \in Keys, h \in Lvls : Insert(p, k, h))
-           \/ (p \notin IterProcs /\ \E k \in Keys : Delete(p, k) \/ Lookup(p, k))
-           \/ (p \notin IterProcs /\ \E n \in 1..MaxNodes : DeleteNode(p, n))
+           \/ (\E k \in Keys, h \in Lvls : Insert(p, k, h))
+           \/ (\E k \in Keys : Delete(p, k) \/ Lookup(p, k))
+           \/ (\E n \in 1..MaxNodes : DeleteNode(p, n))
            \/ aFP0(p) \/ aFP1(p) \/ aFP2(p) \/ aFP3(p) \/ aFP4(p) \/ aFP5(p)
            \/ aI2(p) \/ aU1(p) \/ aU3(p) \/ aS1(p) \/ aS2(p) \/ aDS(p)
-           \/ (p \in IterProcs /\ (SeekFirst(p) \/ (\E k \in Keys : Seek(p, k)) \/ ItNext(p)))
+           \/ SeekFirst(p) \/ (\E k \in Keys : Seek(p, k)) \/ ItNext(p)
            \/ aIT0(p) \/ aIN1(p) \/ aIN2(p)
 Spec == Init /\ [][Next]_vars
 
